@@ -497,3 +497,111 @@ Proof.
   intros Hn. destruct (end_to_end s0 cfg tgs i tg 0 0 0 Hn) as (t & Hc & (Hr & _) & _).
   exists t. split; [exact Hc|]. rewrite Hr. apply exchange_meets_spec.
 Qed.
+
+(* ---- the dial timeout in time: unreachable upstreams ---- *)
+
+(* spec side, independent of [dial_at]: under a configured dial limit an upstream whose connect does
+   not complete within the limit - it takes longer, or it never completes - is answered 504 within
+   the limit (at once when the limit is negative: a deadline in the past); an upstream that connects
+   in time is served with its own status at its own time *)
+Definition dial_late (limit : Z) (c : reach) : Prop :=
+  limit < 0 \/ (0 < limit /\ match c with Connects t => limit <= t | Unreachable => True end).
+Definition dial_time_spec (limit : Z) (c : reach) (st : Z) (r : option (Z * Z)) : Prop :=
+  (dial_late limit c -> exists t, r = Some (504, t) /\ 0 <= t <= Z.max 0 limit) /\
+  (forall t, c = Connects t -> ~ dial_late limit c -> r = Some (st, t)).
+
+Lemma dial_at_meets_spec limit c st : dial_time_spec limit c st (dial_at dial_attempts_of_proxy limit c st).
+Proof.
+  unfold dial_time_spec, dial_late, dial_at, dial_attempts_of_proxy, dial_expires. cbn [error_status].
+  destruct c as [t|]; split.
+  - intros H. destruct (limit <? 0) eqn:N; cbn [orb].
+    + apply Z.ltb_lt in N. exists 0. split; [reflexivity | lia].
+    + apply Z.ltb_ge in N. destruct H as [H | (H1 & H2)]; [lia|].
+      replace (0 <? limit) with true by (symmetry; apply Z.ltb_lt; lia).
+      replace (limit <=? t) with true by (symmetry; apply Z.leb_le; lia). cbn [andb].
+      exists (Z.max 1 1 * limit). split; [reflexivity | lia].
+  - intros t' E H. injection E as <-.
+    destruct (limit <? 0) eqn:N; [apply Z.ltb_lt in N; lia|]. apply Z.ltb_ge in N. cbn [orb].
+    destruct (0 <? limit) eqn:P; [|reflexivity]. apply Z.ltb_lt in P. cbn [andb].
+    destruct (limit <=? t) eqn:L; [apply Z.leb_le in L; lia | reflexivity].
+  - intros H. destruct (limit =? 0) eqn:Z0; [apply Z.eqb_eq in Z0; lia|]. apply Z.eqb_neq in Z0.
+    destruct (limit <? 0) eqn:N.
+    + apply Z.ltb_lt in N. exists 0. split; [reflexivity | lia].
+    + apply Z.ltb_ge in N. exists (Z.max 1 1 * limit). split; [reflexivity | lia].
+  - intros t' E. discriminate.
+Qed.
+
+(* the status is that of [dial] whenever the upstream can be reached at all *)
+Lemma dial_at_status_is_dial k limit t st : option_map fst (dial_at k limit (Connects t) st) = Some (dial limit t st).
+Proof. unfold dial_at, dial. destruct (dial_expires limit t); reflexivity. Qed.
+
+(* a connect that runs into a positive limit: answered within the limit exactly when it is tried once *)
+Lemma dial_within_limit_iff_single_attempt k limit c st :
+  0 < limit -> dial_late limit c -> 1 <= k ->
+  exists t, dial_at k limit c st = Some (504, t) /\ (t <= limit <-> k = 1).
+Proof.
+  intros Hp Hl Hk. exists (k * limit). unfold dial_at, dial_expires, dial_late in *. cbn [error_status].
+  replace (limit <? 0) with false by (symmetry; apply Z.ltb_ge; lia). cbn [orb].
+  replace (Z.max 1 k) with k by lia.
+  split; [|nia].
+  destruct c as [t|].
+  - destruct Hl as [Hl | (_ & Hl)]; [lia|].
+    replace (0 <? limit) with true by (symmetry; apply Z.ltb_lt; lia).
+    replace (limit <=? t) with true by (symmetry; apply Z.leb_le; lia). reflexivity.
+  - replace (limit =? 0) with false by (symmetry; apply Z.eqb_neq; lia). reflexivity.
+Qed.
+
+(* about a HYPOTHETICAL dialer that connects a second time after a failed connect: the client of an
+   unreachable upstream is held for twice the configured dial timeout *)
+Lemma dial_second_attempt_refuted :
+  exists limit st, dial_late limit Unreachable /\ dial_at 2 limit Unreachable st = Some (504, 2 * limit) /\
+    ~ dial_time_spec limit Unreachable st (dial_at 2 limit Unreachable st).
+Proof.
+  exists 2000, 200. split; [right; split; [lia | exact I]|]. split; [reflexivity|].
+  intros (H & _). destruct H as (t & E & Ht); [right; split; [lia | exact I]|].
+  cbn in E. injection E as <-. lia.
+Qed.
+
+(* ... and no number of attempts other than one would do *)
+Lemma dial_spec_iff_single_attempt k : 1 <= k ->
+  ((forall limit c st, dial_time_spec limit c st (dial_at k limit c st)) <-> k = 1).
+Proof.
+  intros Hk. split.
+  - intros H. destruct (H 1 Unreachable 0) as (H1 & _).
+    destruct H1 as (t & E & Ht); [right; split; [lia | exact I]|].
+    unfold dial_at in E. cbn [Z.eqb Z.ltb Z.compare error_status] in E. injection E as <-. lia.
+  - intros ->. exact dial_at_meets_spec.
+Qed.
+
+(* composed with main()'s start-up and the proxy's transport choice: for every configuration, table,
+   target and upstream - reachable after any time, or unreachable - the client of the chosen
+   transport is answered as the spec of the CONFIGURED dial timeout says *)
+Lemma end_to_end_dial_at s0 cfg tgs i tg c st :
+  nth_error tgs i = Some tg ->
+  exists t, chosen (main_start set_config s0 cfg tgs) i = Some t /\
+    dial_time_spec (l_dial cfg) c st (dial_at dial_attempts_of_proxy (t_dial t) c st).
+Proof.
+  intros Hn. destruct (end_to_end s0 cfg tgs i tg 0 0 0 Hn) as (t & Hc & (_ & _ & _ & Hd & _) & _).
+  exists t. split; [exact Hc|]. rewrite Hd. apply dial_at_meets_spec.
+Qed.
+
+(* non-vacuity: an unreachable upstream under a limit of 2000 (504 at 2000), under a negative limit
+   (504 at once), one that connects after 3 under the same limit (served), a slow connect, and the
+   same unreachable upstream behind each kind of target after main()'s start-up *)
+Example dial_at_nonvacuous :
+  let cfg := {| l_rht := 300; l_idle := 15; l_maxconn := 100; l_dial := 2000; l_keepalive := 7 |} in
+  let plain := {| tg_host := []; tg_dst_https := false; tg_proto := []; tg_skip := false |} in
+  let skipv := {| tg_host := bs "dst"%string; tg_dst_https := true; tg_proto := []; tg_skip := true |} in
+  let over := {| tg_host := bs "upstream.example"%string; tg_dst_https := true; tg_proto := []; tg_skip := true |} in
+  let px := main_start set_config init_state cfg [plain; skipv; over] in
+  dial_late 2000 Unreachable /\ dial_late (-1) Unreachable /\ ~ dial_late 2000 (Connects 3) /\ dial_late 2000 (Connects 2500) /\
+  dial_at dial_attempts_of_proxy 2000 Unreachable 200 = Some (504, 2000) /\
+  dial_at dial_attempts_of_proxy (-1) Unreachable 200 = Some (504, 0) /\
+  dial_at dial_attempts_of_proxy 2000 (Connects 3) 200 = Some (200, 3) /\
+  dial_at dial_attempts_of_proxy 2000 (Connects 2500) 200 = Some (504, 2000) /\
+  dial_at dial_attempts_of_proxy 0 Unreachable 200 = None /\
+  map (fun i => option_map (fun t => dial_at dial_attempts_of_proxy (t_dial t) Unreachable 200) (chosen px i)) [0%nat; 1%nat; 2%nat] =
+    [Some (Some (504, 2000)); Some (Some (504, 2000)); Some (Some (504, 2000))].
+Proof.
+  cbv zeta. unfold dial_late. repeat split; try reflexivity; try lia.
+Qed.
